@@ -490,3 +490,34 @@ R.contract(
     ],
     prop=["C18"],
 )
+
+
+# ================================================================================================ accepting packets by destination ID
+# C18 sentence 2 "keeps accepting packets addressed to any ID it issued until the peer retires it" (taken from the property):
+# the destination-ID match of receive_datagram finds EVERY connection ID that is still in _host_cids (issued, and not yet
+# retired by the peer - _handle_retire_connection_id_frame removes exactly the retired one), whatever its other fields say
+# (round-3 seed C18-6 made the match depend on was_sent, which a lost NEW_CONNECTION_ID clears).  Block contract: the
+# declaration of destination_cid_seq and the matching loop, extracted from the real function on every run; what it drops is
+# the rest of receive_datagram (the packet is then dropped iff no ID matched and this end is a client or the packet is a
+# Handshake packet - the statement that follows, not under contract).
+R.contract(
+    "QuicConnection.receive_datagram@dest_cid",
+    region={"anchor": "destination_cid_seq: Optional[int] = None", "span": 2},
+    params={"header": "QuicHeader"},
+    locals={"destination_cid_seq": "Optional[int]"},
+    loops={0: dict(
+        invariant=[
+            "0 <= _i0 <= len(self._host_cids)",
+            "destination_cid_seq is None",
+            "forall(lambda k: implies(0 <= k < _i0, not same(at(self._host_cids, k).cid, header.destination_cid)))",
+        ],
+        modifies=["destination_cid_seq"],
+    )},
+    modifies=[],
+    raises={},
+    ensures=[
+        "forall(lambda k: implies(0 <= k < len(self._host_cids) and same(at(self._host_cids, k).cid, header.destination_cid), destination_cid_seq is not None))",
+    ],
+    frame=True,
+    prop=["C18"],
+)
